@@ -381,6 +381,35 @@ def native(seed=0):
                         bad.append(dict(what=f"restored mesh.{nm} differs from recomputed mesh"))
                 if not np.array_equal(rec.edge_mesh.edges, m1.edge_mesh.edges) or not np.allclose(rec.edge_mesh.dual_edge_lengths, m1.edge_mesh.dual_edge_lengths):
                     bad.append(dict(what="restored edge mesh differs from recomputed"))
+        # meshes of very different sizes (index arrays must survive whatever integer width is used on disk): every stored array, the
+        # Voronoi polygons and the edge mesh come back equal, and a compressed group recomputes the same mesh
+        for mel, npts, hole in ((0.6, 41, False), (0.45, 61, True), (0.25, 101, True), (0.07, 101, True), (0.032, 201, True)):      # 106 ... 19464 sites
+            film = tdgl.Polygon("film", points=box(3, 2, points=npts))
+            dev = tdgl.Device("d", layer=layer, film=film, holes=[tdgl.Polygon("h", points=circle(0.3, points=max(9, npts // 4)))] if hole else None, length_units="um")
+            dev.make_mesh(max_edge_length=mel, smooth=0)
+            m0 = dev.mesh
+            for compress in (False, True):
+                p = os.path.join(td, f"m{n}.h5")
+                with h5py.File(p, "w") as f:
+                    m0.to_hdf5(f.create_group("mesh"), compress=compress)
+                with h5py.File(p, "r") as f:
+                    m1 = Mesh.from_hdf5(f["mesh"])
+                n += 1
+                case = dict(sites=len(m0.sites), compress=compress)
+                for nm in ("sites", "elements", "boundary_indices", "areas", "dual_sites"):
+                    a0, a1 = getattr(m0, nm), getattr(m1, nm)
+                    if a0 is None or a1 is None:
+                        continue
+                    if a0.shape != a1.shape or not np.allclose(a0, a1, rtol=1e-12, atol=1e-15):
+                        bad.append(dict(case, what=f"mesh.{nm} differs after the round trip"))
+                v0, v1 = m0.voronoi_polygons, m1.voronoi_polygons
+                if v0 is not None and v1 is not None and (len(v0) != len(v1) or any(a.shape != b.shape or not np.allclose(a, b, rtol=1e-12, atol=1e-15) for a, b in zip(v0, v1))):
+                    bad.append(dict(case, what="mesh.voronoi_polygons differ after the round trip",
+                                    n_different=int(sum(1 for a, b in zip(v0, v1) if a.shape != b.shape or not np.allclose(a, b))) if len(v0) == len(v1) else None))
+                for nm in ("edges", "boundary_edge_indices", "edge_lengths", "dual_edge_lengths", "centers"):
+                    a0, a1 = getattr(m0.edge_mesh, nm), getattr(m1.edge_mesh, nm)
+                    if a0.shape != a1.shape or not np.allclose(a0, a1, rtol=1e-12, atol=1e-15):
+                        bad.append(dict(case, what=f"edge_mesh.{nm} differs after the round trip"))
         dev = tdgl.Device("d", layer=layer, film=tdgl.Polygon("film", points=box(3, 2)), length_units="um")
         dev.make_mesh(max_edge_length=0.5, smooth=3)
         for tp in (None, 0.0):
